@@ -799,6 +799,10 @@ pub fn apply(s: &mut Stream, name: &'static str, rng: &mut Rng) -> Option<Applie
             {
                 let pk = &mut s.links[l].packets[p];
                 pk.padding = rng.range(16, 40) as usize;
+                // 1 in 4: nothing but the 0xFF bytes is left of the payload
+                if rng.chance(1, 4) {
+                    pk.words.clear();
+                }
                 pk.fix_sizes();
             }
             Some(Applied {
